@@ -132,7 +132,8 @@ Proc(u, e, lst, fuel) ==
        IN <<<<f>> \o sub[1], sub[2]>>
 
 Fuel == MaxOut + 4
-Ref(x) == Proc(UFull, EFull, Flat(UFull, x, 0), Fuel)
+RefOn(u, e, x) == Proc(u, e, Flat(u, x, 0), Fuel)
+Ref(x) == RefOn(UFull, EFull, x)
 RefFrames(x) == Ref(x)[1]
 
 ---------------------------------------------------------------------------
@@ -266,6 +267,31 @@ EquivRefBounded == (pc = "done" /\ \A i \in 1..Len(errors) : errors[i][1] # "gua
 \* errors hold exactly one tag per fault that occurred (by construction of the actions; bound by replay)
 ElabFaultKept == \A i \in 1..Len(errors) : errors[i][1] = "elab" =>
                     \E j \in 1..Len(out) : out[j].f = errors[i][2] /\ out[j].unhid
+
+\* C05 "every frame outward of the failure is still present": the frames yielded, cut after the first frame
+\* whose own elaborate hook raised (its callees are pruned), are a prefix of the frames of the fault-free
+\* sibling tables (u0, e0: the same tables with every raising entry replaced by a non-raising one).
+\* Faults in unwrap / iterator steps / context analysis do not cut: the failing item becomes irreducible and
+\* everything after it ends up in the leaf list, so all yielded frames lie outward of it.
+FirstElabFault == IF \E j \in 1..Len(out) : out[j].unhid
+                  THEN CHOOSE j \in 1..Len(out) : out[j].unhid /\ \A i \in 1..(j - 1) : ~out[i].unhid
+                  ELSE Len(out)
+IsPrefix(a, b) == Len(a) <= Len(b) /\ SubSeq(b, 1, Len(a)) = a
+OutwardKeptOn(u0, e0) == IsPrefix(SubSeq(OutFrames, 1, FirstElabFault), RefOn(u0, e0, root)[1])
+
+\* every raising table entry that was consulted left (at least) one error, and nothing else did
+FaultsAllRecorded ==
+   /\ \A w \in DOMAIN U : U[w].k = "raise" => \E i \in 1..Len(errors) : errors[i] = <<"unwrap", w>>
+   /\ \A w \in DOMAIN U : U[w].k = "iterfail" =>
+          (\E i \in 1..Len(errors) : errors[i] = <<"iter", w>>) \/ (\E i \in 1..Len(errors) : errors[i] = <<"guard", w>>)
+   /\ \A f \in DOMAIN E : E[f].k = "raise" => \E i \in 1..Len(errors) : errors[i] = <<"elab", f>>
+   /\ \A f \in DOMAIN C : C[f] > 0 => \E i \in 1..Len(errors) : errors[i] = <<"ctx", f>>
+   /\ \A i \in 1..Len(errors) :
+          CASE errors[i][1] = "unwrap" -> U[errors[i][2]].k = "raise"
+            [] errors[i][1] = "iter" -> U[errors[i][2]].k = "iterfail"
+            [] errors[i][1] = "elab" -> E[errors[i][2]].k = "raise"
+            [] errors[i][1] = "ctx" -> C[errors[i][2]] > 0
+            [] OTHER -> TRUE
 
 \* C10: the guard only trips after MaxLoops consecutive productive unwraps, and tripping is recorded
 GuardRecorded == \A i \in 1..Len(errors) : errors[i][1] = "guard" => errors[i][2] \in Wraps
